@@ -195,6 +195,36 @@ func checkC02(c *Ctx) error {
 		{id: "probe:hex-literal", src: "import \"std/io\";\n\nfn main() {\n    let a: i32 = 0xFF;\n    let b: u8 = 0b1010;\n    io::Println(a);\n    io::Println(b);\n}\n"},
 		{id: "probe:dyn-oob-panic", src: "import \"std/io\";\n\nfn idx() -> i32 {\n    return 5;\n}\n\nfn main() {\n    let d := [1, 2, 3];\n    io::Println(d[1]);\n    let k := idx();\n    io::Println(d[k]);\n    io::Println(9);\n}\n"},
 	}
+	// allocation-heavy run: every call frame is carved out of the linear memory, so 20000 calls
+	// cross several 64 KiB pages at arbitrary offsets
+	pins = append(pins, job{id: "probe:heap-growth-calls", src: "import \"std/io\";\n\nfn mix(x: i64, k: i64) -> i64 {\n    let a: i64 = x * 3;\n    let b: i64 = a + k;\n    let c: i64 = b % 1000003;\n    return c;\n}\n\nfn run(n: i64) -> i64 {\n    let i: i64 = 0;\n    let s: i64 = 7;\n    while i < n {\n        s = mix(s, i);\n        i = i + 1;\n    }\n    return s;\n}\n\nfn main() {\n    io::Println(run(10));\n    io::Println(run(3000));\n    io::Println(run(20000));\n    io::Println(run(50000));\n}\n"})
+	// integer -> float conversions of every integer type at its boundary values
+	{
+		var b strings.Builder
+		b.WriteString("import \"std/io\";\n\n")
+		for _, t := range gen.IntTypes {
+			fmt.Fprintf(&b, "fn id_%s(x: %s) -> %s {\n    return x;\n}\n\n", t, t, t)
+		}
+		b.WriteString("fn main() {\n")
+		n := 0
+		var tol []float64
+		for _, t := range gen.IntTypes {
+			for _, v := range mxBoundary(t) {
+				n++
+				fmt.Fprintf(&b, "    let v%d: %s = id_%s(%s);\n", n, t, t, gen.ExprStr(mxLit(t, v)))
+				fmt.Fprintf(&b, "    let d%d: f64 = v%d as f64;\n    io::Println(d%d);\n", n, n, n)
+				fmt.Fprintf(&b, "    let e%d: f32 = v%d as f32;\n    io::Println(e%d);\n", n, n, n)
+				tol = append(tol, 1e-12, 1e-5)
+			}
+		}
+		b.WriteString("}\n")
+		pins = append(pins, job{id: "matrix:int-to-float", src: b.String(), tol: tol})
+	}
+	for _, mp := range matrixPrograms() {
+		if mp.wasmOK {
+			pins = append(pins, job{id: "matrix:" + mp.name, src: mp.p.Source()})
+		}
+	}
 	jobs = append(pins, jobs...)
 	core.ParDo(len(jobs), 5, func(i int) {
 		j := jobs[i]
